@@ -182,6 +182,7 @@ func runC15(r *mon.Run) {
 	}
 	c15Expansion(r, lg)
 	c15Concurrent(r)
+	c15Challenge(r)
 	c15Proofs(r)
 	if lg != nil {
 		lg.w.Flush()
@@ -348,6 +349,48 @@ func c15Expansion(r *mon.Run, lg *c15logger) {
 }
 
 // refContribD recomputes the challenge contributions of a library-made ProofD in protocol order.
+// c15Challenge: the challenge over (context, contributions..., nonce) equals the reference, also when the contributions are a
+// prefix of a longer list whose tail the caller goes on using (a verifier walking through a list): the tail and the prefix
+// must come back unchanged.
+func c15Challenge(r *mon.Run) {
+	rng := r.Rand("challenge")
+	for i := 0; i < r.Pick(600, 20000); i++ {
+		total := 1 + rng.IntN(12)
+		k := rng.IntN(total + 1)
+		backing := make([]*big.Int, total, total+rng.IntN(4))
+		for j := range backing {
+			backing[j] = c15Entry(rng)
+		}
+		snapshot := cloneInts(backing)
+		ctx, nonce := c15Entry(rng), c15Entry(rng)
+		issig := rng.IntN(2) == 0
+		var got *big.Int
+		pv, _ := mon.Try(func() { got = gabi.VerifCreateChallenge(ctx, nonce, backing[:k], issig) })
+		want := refimpl.Challenge(ctx, nonce, snapshot[:k], issig)
+		r.Eval("challenge", outcome(pv == nil, pv))
+		r.Distinct("challenge", decs(snapshot), k, issig, dumpInt(ctx), dumpInt(nonce))
+		if pv != nil || got == nil || got.Cmp(want) != 0 {
+			r.Violation("C15/challenge-differs-from-reference", fmt.Sprintf("the challenge over context, %d contributions and nonce differs from the reference (panic=%v)", k, pv), map[string]any{"contributions": decs(snapshot[:k]), "context": dumpInt(ctx), "nonce": dumpInt(nonce), "issig": issig})
+			continue
+		}
+		for j := range backing {
+			if backing[j] == nil || backing[j].Cmp(snapshot[j]) != 0 {
+				r.Violation("C15/challenge-computation-modifies-callers-list", fmt.Sprintf("computing the challenge over the first %d of %d values changed value %d of the caller's list", k, total, j),
+					map[string]any{"list": decs(snapshot), "prefix": k, "changed_index": j, "now": dumpInt(backing[j]), "nonce": dumpInt(nonce)})
+				break
+			}
+		}
+		// ... and the challenge over the whole list afterwards is still the reference value
+		if k < total {
+			got2 := gabi.VerifCreateChallenge(ctx, nonce, backing, issig)
+			if got2.Cmp(refimpl.Challenge(ctx, nonce, snapshot, issig)) != 0 {
+				r.Violation("C15/challenge-differs-from-reference/after-prefix", "the challenge over a list differs from the reference after a challenge over its prefix was computed", map[string]any{"list": decs(snapshot), "prefix": k})
+			}
+		}
+	}
+	r.FloorFam("challenge", 500)
+}
+
 // c15Concurrent calls the three functions from many goroutines at once on inputs whose reference values were computed
 // beforehand: they are pure functions of their arguments, so the schedule must not matter.
 func c15Concurrent(r *mon.Run) {
